@@ -42,7 +42,7 @@ func main() {
 }
 
 type stats struct {
-	Mutex, Go, Os int
+	Mutex, Go, Os, Pipe int
 	Files         []string
 }
 
@@ -113,7 +113,7 @@ func rewrite(path string, tape bool, st *stats) ([]byte, bool, error) {
 		return nil, false, err
 	}
 	// local names of the imports we care about
-	syncName, osName := "", ""
+	syncName, osName, ioName := "", "", ""
 	for _, im := range f.Imports {
 		p, _ := strconv.Unquote(im.Path.Value)
 		name := filepath.Base(p)
@@ -125,6 +125,8 @@ func rewrite(path string, tape bool, st *stats) ([]byte, bool, error) {
 			syncName = name
 		case "os":
 			osName = name
+		case "io":
+			ioName = name
 		}
 	}
 	changed := false
@@ -142,6 +144,11 @@ func rewrite(path string, tape bool, st *stats) ([]byte, bool, error) {
 			if isSel(x, syncName, "Mutex") {
 				x.X.(*ast.Ident).Name = "simhook"
 				st.Mutex++
+				changed = true
+			}
+			if isSel(x, ioName, "Pipe") {
+				x.X.(*ast.Ident).Name = "simhook"
+				st.Pipe++
 				changed = true
 			}
 			if tape {
@@ -169,6 +176,7 @@ func rewrite(path string, tape bool, st *stats) ([]byte, bool, error) {
 	addImport(f, simhookPath)
 	dropUnusedImport(f, "sync", syncName)
 	dropUnusedImport(f, "os", osName)
+	dropUnusedImport(f, "io", ioName)
 	var buf bytes.Buffer
 	if err := format.Node(&buf, fset, f); err != nil {
 		return nil, false, err
